@@ -251,6 +251,16 @@ def malformed(ctx, jwk, rng):
                      ("bogus", ["sign"]), ("sig", ["bogus"])):
         yield f"use-ops-{use}-{'+'.join(ops)}", {**jwk, "use": use, "key_ops": ops}
     yield "use-not-sig-enc", {**jwk, "use": "signature"}
+    # optional members with a JSON type other than the one RFC 7517 gives them (use, alg, kid, x5u, x5t: string; key_ops, x5c: array of strings)
+    for m, is_list in (("use", False), ("alg", False), ("kid", False), ("x5u", False), ("x5t", False), ("x5t#S256", False), ("key_ops", True), ("x5c", True)):
+        good = {"use": "sig", "key_ops": "sign" if kty in ("oct", "EC", "OKP", "RSA") else "sign"}.get(m, "https://example.com/x")
+        wrong = {"null": None, "int": 5, "float": 1.5, "bool": True, "dict": {"a": 1}}
+        if is_list:
+            wrong.update({"bare-str": good, "list-of-int": [5], "list-of-list": [[good]], "list-with-null": [good, None]})
+        else:
+            wrong.update({"list-of-str": [good], "empty-list": [], "list-of-two": [good, good]})
+        for tname, tv in wrong.items():
+            yield f"optional-retyped-{m}-{tname}", {**jwk, m: copy.deepcopy(tv)}
     yield "key_ops-unknown", {**jwk, "key_ops": ["sign", "fly"]}
     if kty == "RSA" and "p" in jwk:
         crt = ["p", "q", "dp", "dq", "qi"]
